@@ -1,4 +1,4 @@
-\* thorough: nested statements over more ledgers, all seven filter expressions in the subquery, three in the statement, a
+\* thorough: nested statements over more ledgers, five filter expressions in the subquery, a
 \* rejected subquery (CLOSE before OPEN)
 CONSTANTS
   Base <- MCBase
@@ -9,7 +9,7 @@ CONSTANTS
   OpenArgs <- Open03
   CloseArgs <- Close04
   ClearArgs = {TRUE, FALSE}
-  Filters <- FSome
+  Filters <- FNone
   Order <- OrderStated
   CompileMode = "stated"
   Inners <- InnersThorough
